@@ -127,6 +127,7 @@ func init() {
 			{Fn: "H_array", Tier: "quick", Reach: []string{"end"}},
 			{Fn: "H_array_text", Fuel: 30_000_000, Tier: "quick", Reach: []string{"end"}},
 			{Fn: "H_array_history", Fuel: 30_000_000, Tier: "quick", Reach: []string{"end"}},
+			{Fn: "H_join_strings", Fuel: 30_000_000, Tier: "quick", Reach: []string{"end"}},
 			c15s(0, 0, "quick"), c15s(0, 1, "quick"), c15s(1, 0, "quick"), c15s(1, 1, "quick"), c15s(2, 0, "quick"), c15s(2, 1, "quick"), c15s(2, 2, "quick"),
 			c15s(3, 1, "thorough"), c15s(3, 2, "thorough"), c15s(4, 1, "thorough"), c15s(4, 2, "thorough"),
 		},
@@ -193,6 +194,7 @@ func init() {
 			{Fn: "H_script", Fuel: 60_000_000, Tier: "quick", Reach: []string{"end"}},
 			{Fn: "H_base_code", Fuel: 60_000_000, Tier: "quick", Reach: []string{"end"}},
 			{Fn: "H_base_after", Fuel: 60_000_000, Tier: "quick", Reach: []string{"end"}},
+			{Fn: "H_base_autoload", Fuel: 60_000_000, Tier: "quick", Reach: []string{"end"}},
 			{Fn: "H_autoload", Params: k(1), Fuel: 60_000_000, Tier: "quick", Reach: []string{"end"}},
 			{Fn: "H_autoload", Params: k(2), Fuel: 60_000_000, Tier: "thorough", Reach: []string{"end"}},
 		},
@@ -211,6 +213,7 @@ func init() {
 			{Fn: "H_pairs", Fuel: 30_000_000, Tier: "quick", Reach: []string{"end"}},
 			{Fn: "H_include", Fuel: 30_000_000, Tier: "quick", Reach: []string{"end"}},
 			{Fn: "H_enum_order", Fuel: 30_000_000, Tier: "quick", Reach: []string{"end"}},
+			{Fn: "H_file_programs", Fuel: 30_000_000, Tier: "quick", Reach: []string{"end"}},
 		},
 		Rule:        rule + "; Go's map iteration order is the adversary and is made a symbolic choice: every range over a Go map with 2..3 entries executed inside origami code (up to 4 such ranges per path) takes its order from a fresh symbolic permutation, all orders are explored as sibling paths, and the output must equal the insertion-order run of the same template in the same path; OrderedMap Set/Delete histories against a slice model; all ordered pairs (A then B vs B alone) of the templates on fresh VMs in one engine process; H_enum_order: explicit insertion-order oracle for objects and string-keyed arrays over every order of three names; H_include: two programs including the same file",
 		Assumptions: []string{"maps with more than 3 entries and the 5th and later permutable ranges of a path iterate in insertion order"},
